@@ -9,6 +9,7 @@ import (
 	"github.com/thanos-community/promql-engine/engine"
 	"os"
 	"runtime"
+	"sort"
 	"strings"
 	"sync/atomic"
 	"time"
@@ -33,10 +34,13 @@ type faultOutcome struct {
 	opened   int
 	closes   []int
 	returned bool // Exec returned within the bound
-	elapsed  time.Duration
-	dump     string
-	sess     *memstore.Session
-	ctxErr   error
+	// inconclusive: Exec was still making storage callbacks when the wait was given up
+	// (starved machine); no verdict can be based on this execution
+	inconclusive bool
+	elapsed      time.Duration
+	dump         string
+	sess         *memstore.Session
+	ctxErr       error
 }
 
 func curGoid() int64 {
@@ -67,7 +71,79 @@ func engineGoroutines() []string {
 	return out
 }
 
-const execBound = 15 * time.Second
+// execBound: an execution that has not returned after this time AND has not made a storage
+// callback for stallBound is reported as hung. An execution that is still making callbacks
+// (a starved machine: typical executions take milliseconds) is waited for up to execCap and
+// then given up as inconclusive - a time budget is never a violation by itself.
+const (
+	execBound  = 15 * time.Second
+	stallBound = 10 * time.Second
+	execCap    = 240 * time.Second
+)
+
+// parkedStates are the goroutine states in which a goroutine waits for another goroutine.
+var parkedStates = []string{"[chan receive", "[chan send", "[select", "[semacquire", "[sync.Cond.Wait", "[sync.Mutex.Lock", "[sync.RWMutex"}
+
+func isParked(stack string) bool {
+	head := stack
+	if i := strings.IndexByte(stack, '\n'); i >= 0 {
+		head = stack[:i]
+	}
+	for _, st := range parkedStates {
+		if strings.Contains(head, st) {
+			return true
+		}
+	}
+	return false
+}
+
+func goroutineIDs(stacks []string) string {
+	var ids []string
+	for _, g := range stacks {
+		f := strings.Fields(g)
+		if len(f) >= 2 {
+			ids = append(ids, f[1])
+		}
+	}
+	sort.Strings(ids)
+	return strings.Join(ids, ",")
+}
+
+// leakedGoroutines waits for the goroutines of the engine to end. It returns the stacks
+// of those that are still there after quick, all parked, and the same ones as two
+// seconds before (stuck for good). Goroutines that are runnable, running or sleeping are
+// still winding down (slow machine); they are waited for up to a minute and then given up
+// without a verdict (slow=true).
+func leakedGoroutines(quick time.Duration) (leaked []string, slow bool) {
+	if WaitQuiet(quick) {
+		return nil, false
+	}
+	deadline := time.Now().Add(60 * time.Second)
+	prev, prevAt := "", time.Now()
+	for {
+		gs := engineGoroutines()
+		if len(gs) == 0 {
+			return nil, false
+		}
+		allParked := true
+		for _, g := range gs {
+			if !isParked(g) {
+				allParked = false
+			}
+		}
+		ids := goroutineIDs(gs)
+		if allParked && ids == prev && time.Since(prevAt) >= 2*time.Second {
+			return gs, false
+		}
+		if ids != prev || !allParked {
+			prev, prevAt = ids, time.Now()
+		}
+		if time.Now().After(deadline) {
+			return nil, true
+		}
+		time.Sleep(100 * time.Millisecond)
+	}
+}
 
 // promCancelErr: a query evaluated by the Prometheus engine (fallback path, also inside a
 // remote engine) reports the end of its context as ErrQueryCanceled / ErrQueryTimeout.
@@ -209,13 +285,32 @@ func runFaulted(c *core.Case, eng Engine, st *memstore.Store, faults []core.Faul
 		r := qry.Exec(ctx)
 		done <- oracle.FromResult(r)
 	}()
-	select {
-	case r := <-done:
-		out.res = r
-		out.returned = true
-	case <-time.After(execBound):
-		out.dump = allStacks()
+	lastProgress, lastTotal := time.Now(), -1
+	tick := time.NewTicker(500 * time.Millisecond)
+wait:
+	for {
+		select {
+		case r := <-done:
+			out.res = r
+			out.returned = true
+			break wait
+		case <-tick.C:
+			if _, total := sess.Counts(); total != lastTotal {
+				lastTotal, lastProgress = total, time.Now()
+			}
+			el := time.Since(t0)
+			if el >= execBound && time.Since(lastProgress) >= stallBound {
+				// no storage callback for a long time: the execution is stuck
+				out.dump = allStacks()
+				break wait
+			}
+			if el >= execCap {
+				out.inconclusive = true
+				break wait
+			}
+		}
 	}
+	tick.Stop()
 	out.elapsed = time.Since(t0)
 	out.ctxErr = ctx.Err()
 	// Per-querier accounting is taken when Exec returns (C17: "no later than when Exec returns").
@@ -337,6 +432,9 @@ func sweep(c *core.Case, kinds []string, classes []string, judge func(kind strin
 	if base.createEr != nil {
 		return core.Verdict{Status: "skip", Detail: "not created: " + base.createEr.Error(), Features: feats}
 	}
+	if base.inconclusive {
+		return core.Verdict{Status: "skip", Detail: "inconclusive: an execution was still making progress after " + execCap.String() + " (starved machine)", Features: append(feats, "inconclusive-slow"), Restart: true}
+	}
 	if !base.returned {
 		return core.Verdict{Status: "violation", Detail: caseHdr(c) + "fault-free execution did not return within " + execBound.String() + "\n" + base.dump}
 	}
@@ -391,6 +489,9 @@ func sweep(c *core.Case, kinds []string, classes []string, judge func(kind strin
 					}
 				}
 				evals++
+				if o.inconclusive {
+					return core.Verdict{Status: "skip", Detail: "inconclusive: an execution was still making progress after " + execCap.String() + " (starved machine)", Features: append(feats, "inconclusive-slow"), Restart: true}
+				}
 				if !o.returned {
 					return core.Verdict{Status: "violation", Features: feats, Evals: evals,
 						Detail: fmt.Sprintf("%sfault %v: Exec did not return within %s; goroutines:\n%s", caseHdr(c), fs, execBound, o.dump)}
@@ -429,6 +530,9 @@ func sweep(c *core.Case, kinds []string, classes []string, judge func(kind strin
 	// other queries are unaffected: the same engine answers the fault-free query as before
 	after := runFaulted(c, eng, st, nil, 0)
 	evals++
+	if after.inconclusive {
+		return core.Verdict{Status: "skip", Detail: "inconclusive: an execution was still making progress after " + execCap.String() + " (starved machine)", Features: append(feats, "inconclusive-slow"), Restart: true}
+	}
 	if !after.returned {
 		return core.Verdict{Status: "violation", Detail: caseHdr(c) + "a fault-free execution after the faulted ones did not return\n" + after.dump, Features: feats}
 	}
@@ -559,10 +663,8 @@ func init() {
 				return "panic escaped from Exec: " + o.res.Err.Error()
 			}
 			// no goroutine of the engine may survive Exec + Close (checked after every execution)
-			if !WaitQuiet(3 * time.Second) {
-				if gs := engineGoroutines(); len(gs) > 0 {
-					return fmt.Sprintf("%d goroutine(s) of the engine still alive 3s after Exec returned and the query was closed:\n%s", len(gs), strings.Join(gs, "\n\n"))
-				}
+			if gs, _ := leakedGoroutines(3 * time.Second); len(gs) > 0 {
+				return fmt.Sprintf("%d goroutine(s) of the engine still parked %s after Exec returned and the query was closed:\n%s", len(gs), "5s", strings.Join(gs, "\n\n"))
 			}
 			if kind == "none" {
 				return ""
@@ -608,6 +710,9 @@ func init() {
 				if o.createEr != nil {
 					break
 				}
+				if o.inconclusive {
+					break
+				}
 				if !o.returned {
 					return violation("%sdeadline %dus: Exec did not return within %s:\n%s", caseHdr(c), us, execBound, o.dump)
 				}
@@ -618,10 +723,8 @@ func init() {
 				} else if base.res.Err == nil && !errors.Is(o.res.Err, context.DeadlineExceeded) && !strings.Contains(o.res.Err.Error(), "deadline exceeded") && !promCancelErr(o.res.Err) {
 					return violation("%sdeadline %dus: Exec returned an error that is not the context's: %v", caseHdr(c), us, o.res.Err)
 				}
-				if !WaitQuiet(3 * time.Second) {
-					if gs := engineGoroutines(); len(gs) > 0 {
-						return violation("%sdeadline %dus: goroutines of the engine still alive 3s after Exec returned:\n%s", caseHdr(c), us, strings.Join(gs, "\n\n"))
-					}
+				if gs, _ := leakedGoroutines(3 * time.Second); len(gs) > 0 {
+					return violation("%sdeadline %dus: goroutines of the engine still parked 5s after Exec returned:\n%s", caseHdr(c), us, strings.Join(gs, "\n\n"))
 				}
 			}
 			v.Features = append(v.Features, "deadline-variant")
